@@ -194,7 +194,14 @@ def check_case(case, ctx):
         wlam += lam_int[i]
     if case["self_add"]:
         # doubling through in-place self addition
-        ok, _ = guarded(ctx, "addition", lambda: total.__iadd__(total), fam + "/self")
+        # (under the same units context as the rest of the history: the copy made of the right operand must not
+        # re-read the stored parameters in the current units)
+        def selfadd():
+            if case.get("u_add"):
+                with qr.energy_units(case["u_add"]):
+                    return total.__iadd__(total)
+            return total.__iadd__(total)
+        ok, _ = guarded(ctx, "addition", selfadd, fam + "/self")
         if not ok:
             return
         want = 2 * want
